@@ -28,9 +28,10 @@ type Options struct {
 
 // Site describes one instrumented site.
 type Site struct {
-	ID   string `json:"id"`   // pkg/file.go:line:rule
-	Rule string `json:"rule"` // R1 R2 R3 R5task R5writer
-	Note string `json:"note,omitempty"`
+	ID    string `json:"id"`    // pkg/file.go:line:rule
+	Label string `json:"label"` // pkg/file.go:Func/rule#n - survives edits elsewhere in the file
+	Rule  string `json:"rule"`  // R1 R2 R3 R5task R5writer
+	Note  string `json:"note,omitempty"`
 }
 
 // Stats summarises a rewrite.
@@ -106,6 +107,8 @@ type fileRewriter struct {
 	st      *Stats
 	imports map[string]bool
 	n       int
+	fn      string         // enclosing top-level function
+	ord     map[string]int // per (function, rule) ordinal
 }
 
 func (r *fileRewriter) off(p token.Pos) int { return r.p.Fset.Position(p).Offset }
@@ -130,7 +133,16 @@ func (r *fileRewriter) use(ip string) {
 }
 
 func (r *fileRewriter) add(id, rule, note string) {
-	r.st.Sites = append(r.st.Sites, Site{ID: id, Rule: rule, Note: note})
+	if r.ord == nil {
+		r.ord = map[string]int{}
+	}
+	k := r.fn + "/" + rule
+	r.ord[k]++
+	file := id
+	if i := strings.IndexByte(id, ':'); i >= 0 {
+		file = id[:i]
+	}
+	r.st.Sites = append(r.st.Sites, Site{ID: id, Label: fmt.Sprintf("%s:%s/%s#%d", file, r.fn, rule, r.ord[k]), Rule: rule, Note: note})
 	r.st.PerRule[rule]++
 }
 
@@ -202,6 +214,11 @@ func (r *fileRewriter) run() {
 		}
 		stack = append(stack, n)
 		switch x := n.(type) {
+		case *ast.FuncDecl:
+			r.fn = x.Name.Name
+			if x.Recv != nil && len(x.Recv.List) > 0 {
+				r.fn = r.text(x.Recv.List[0].Type) + "." + x.Name.Name
+			}
 		case *ast.RangeStmt:
 			if r.o.R1 && isMap(info.TypeOf(x.X)) {
 				r.rangeStmt(x, parent)
